@@ -28,11 +28,18 @@ class Discard(Exception):
 
 
 def load_known(prop):
-    if not os.path.exists(KNOWN_FILE):
-        return []
-    with open(KNOWN_FILE) as f:
-        data = json.load(f)
-    return [k for k in data.get("known", []) if k["property"] == prop]
+    out = []
+    files = [KNOWN_FILE]
+    d = os.path.join(VERIF, "known_findings.d")
+    if os.path.isdir(d):
+        files += [os.path.join(d, f) for f in sorted(os.listdir(d)) if f.endswith(".json")]
+    for fn in files:
+        if not os.path.exists(fn):
+            continue
+        with open(fn) as f:
+            data = json.load(f)
+        out += [k for k in data.get("known", []) if k["property"] == prop]
+    return out
 
 
 def match_known(known, rule, sig):
